@@ -27,10 +27,18 @@ type Bus struct {
 	Consumer wire.Consumer
 	FailSend bool
 	OnSend   func(*wire.Envelope) // called (outside the lock) for every publication
+	// Unreachable, if set, names recipients that cannot be reached: Publish to
+	// them blocks until the caller's context ends and returns its error (what a
+	// bus does for an offline or made-up address).
+	Unreachable func(map[wallet.BackendID]wire.Address) bool
 }
 
 // Publish implements wire.Publisher.
-func (b *Bus) Publish(_ context.Context, e *wire.Envelope) error {
+func (b *Bus) Publish(ctx context.Context, e *wire.Envelope) error {
+	if b.Unreachable != nil && b.Unreachable(e.Recipient) {
+		<-ctx.Done()
+		return ctx.Err()
+	}
 	b.mu.Lock()
 	if b.FailSend {
 		b.mu.Unlock()
